@@ -1449,6 +1449,131 @@ def stream_itxn(run, thorough):
 
 
 # ---------------------------------------------------------------------------------------------
+# mode dimension: programs without application-only constructs must end alike as logic signature and as application
+# (frame-pointer subroutines with runs of ABI locals make the compiler emit dupn / popn / bury / frame_dig / frame_bury / proto itself)
+# ---------------------------------------------------------------------------------------------
+IMPLICIT_OPS = ["dupn", "popn", "bury", "frame_dig", "frame_bury", "proto", "cover", "uncover", "dig", "swap", "dup", "dup2", "pop", "select",
+                "callsub", "retsub", "load", "store", "loads", "stores", "b", "bz", "bnz", "return", "err", "assert", "int", "byte", "addr", "method",
+                "intcblock", "intc", "intc_0", "intc_1", "intc_2", "intc_3", "bytecblock", "bytec", "bytec_0", "bytec_1", "bytec_2", "bytec_3",
+                "pushint", "pushbytes", "extract", "extract3", "substring", "substring3", "getbit", "setbit", "getbyte", "setbyte", "itob", "btoi",
+                "concat", "len", "bzero", "extract_uint16", "extract_uint32", "extract_uint64", "mulw", "divmodw", "!", "+", "-", "*", "/", "==", "<", ">"]
+
+
+def independent_op_table():
+    """(name -> (min_version, signature?, application?)) parsed from the hand-maintained langspec coq/AVM/Syntax.v (never regenerated from /repo)"""
+    import re
+    src = open(os.path.join(COQ, "AVM", "Syntax.v")).read()
+
+    def arms(defname, pat):
+        i = src.index("Definition %s " % defname)
+        j = src.index("\n  end.", i)
+        return dict(re.findall(pat, src[i:j]))
+    names = arms("opc_name", r'\| (O_\w+) => "([^"]+)"')
+    minv = arms("opc_minv", r"\| (O_\w+) => (\d+)")
+    modes = {k_: (a_ == "true", b_ == "true") for k_, a_, b_ in re.findall(r"\| (O_\w+) => \((true|false), (true|false)\)", src[src.index("Definition opc_modes "):])}
+    return {nm: (int(minv[o_]), modes[o_][0], modes[o_][1]) for o_, nm in names.items() if o_ in minv and o_ in modes}
+
+
+def op_table_correspondence(run):
+    pt, ck = run.pt, run.ck
+    spec = independent_op_table()
+    stats = {"ops compared": 0, "implicit ops compared": 0, "differences outside the implicit set": []}
+    for o in pt.Op:
+        nm, mv, md = o.value.value, o.value.min_version, o.value.mode
+        if nm not in spec:
+            continue
+        stats["ops compared"] += 1
+        got = (mv, bool(md & pt.Mode.Signature), bool(md & pt.Mode.Application))
+        ck.count(("optable", nm), nontrivial=True)
+        if nm in IMPLICIT_OPS:
+            stats["implicit ops compared"] += 1
+        if got != spec[nm]:
+            if nm in IMPLICIT_OPS:
+                ck.violation("op table: PyTeal lists %r as (min version %d, signature %s, application %s), the independent langspec (coq/AVM/Syntax.v) as (%d, %s, %s); "
+                             "the compiler emits this op on its own" % ((nm,) + got + spec[nm]),
+                             {"kind": "acceptance", "broken": "op table vs langspec", "op": nm, "pyteal": got, "langspec": spec[nm]}, no_failing_input=True)
+            else:
+                stats["differences outside the implicit set"].append([nm, got, spec[nm]])
+    return stats
+
+
+ABI_LOCAL_KINDS = {"u64": "abi.Uint64", "u8": "abi.Uint8", "bool": "abi.Bool", "str": "abi.String", "addr": "abi.Address"}
+
+
+def build_abi_locals_case(pt, spec):
+    """a subroutine that allocates the given ABI locals (runs of equal storage types become `int 0; dupn k`), called from main"""
+    abi, Int, Seq = pt.abi, pt.Int, pt.Seq
+    kinds = spec["locals"]
+
+    def body(x, output=None):
+        vals = [eval(ABI_LOCAL_KINDS[k_], {"abi": abi})() for k_ in kinds]
+        stmts, total = [], x
+        for i, (k_, v) in enumerate(zip(kinds, vals)):
+            if k_ in ("u64", "u8"):
+                stmts.append(v.set((x + Int(i)) % Int(200)))
+                total = total + v.get()
+            elif k_ == "bool":
+                stmts.append(v.set(x > Int(i)))
+                total = total + v.get()
+            elif k_ == "str":
+                stmts.append(v.set(pt.Bytes("ab")))
+                total = total + v.length()
+            else:
+                stmts.append(v.set(pt.Global.zero_address()))
+                total = total + pt.Len(v.get())
+        if output is not None:
+            return Seq(*stmts, output.set(total))
+        return Seq(*stmts, total)
+    if spec["decorator"] == "ABIReturnSubroutine":
+        ns = {"abi": abi, "body": body}
+        exec("def f(a: abi.Uint64, *, output: abi.Uint64):\n    return body(a.get(), output)\n", ns)
+        f = pt.ABIReturnSubroutine(ns["f"])
+        a, r = abi.Uint64(), abi.Uint64()
+        return Seq(a.set(pt.Txn.fee()), f(a).store_into(r), pt.Return(r.get() == Int(6)))
+    f = pt.Subroutine(pt.TealType.uint64)(lambda x: body(x))
+    return pt.Return(f(pt.Txn.fee()) == Int(6))
+
+
+def run_abi_locals_case(pt, spec, app):
+    return real_call(pt, lambda: pt.compileTeal(build_abi_locals_case(pt, spec), pt.Mode.Application if app else pt.Mode.Signature, version=spec["version"],
+                                                optimize=(None if spec.get("fp") is None else pt.OptimizeOptions(frame_pointers=spec["fp"]))))
+
+
+def stream_modes(run, thorough):
+    pt, ck = run.pt, run.ck
+    stats, bad = {}, {}
+    local_sets = [["u64"], ["u64", "u64"], ["u64"] * 3, ["u64"] * 5, ["str"] * 3, ["bool"] * 3, ["u64", "str", "u64"], ["u8", "u8", "str", "str", "str"],
+                  ["addr", "addr", "addr", "u64"], ["u64"] * 9, []]
+    for li, locs in enumerate(local_sets):
+        for deco in ("Subroutine", "ABIReturnSubroutine"):
+            for version, fp in (((6, None), (7, None), (8, None), (8, False), (9, None), (10, None), (10, False), (10, True)) if thorough
+                                else ((8, None), (10, None), ((7, 9)[li % 2], None), (10, False))):
+                spec = {"locals": locs, "decorator": deco, "version": version, "fp": fp}
+                xa = run_abi_locals_case(pt, spec, True)
+                xs = run_abi_locals_case(pt, spec, False)
+                ca, cs = ("ok" if x["outcome"] == "ok" else x.get("exc", x["outcome"]) for x in (xa, xs))
+                ck.count(("modes", json.dumps(spec, sort_keys=True)), nontrivial=(xs["outcome"] == "ok"))
+                stats["sig:" + cs] = stats.get("sig:" + cs, 0) + 1
+                stats["app:" + ca] = stats.get("app:" + ca, 0) + 1
+                for x, c_, app in ((xa, ca, True), (xs, cs, False)):
+                    if x["outcome"] in ("crash", "timeout"):
+                        bad.setdefault(("crash", c_, app), []).append((spec, x, ca, cs))
+                if xa["outcome"] != "crash" and xs["outcome"] != "crash" and ca != cs:
+                    bad.setdefault(("mode", cs, ca), []).append((spec, xs, ca, cs))
+    for key, lst in list(bad.items())[:3]:
+        spec, x, ca, cs = min(lst, key=lambda t: len(t[0]["locals"]))
+        if key[0] == "crash":
+            what = "%s: a non-PyTeal exception for a subroutine with ABI locals %r (%s mode, version %d)" % (key[1], spec["locals"], "application" if key[2] else "signature", spec["version"])
+        else:
+            what = "a %s with ABI locals %r that uses no application-only construct ends in %s as a logic signature (%s) but in %s as an application (version %d, frame_pointers=%r)" % (
+                spec["decorator"], spec["locals"], cs, x.get("msg", "")[:90], ca, spec["version"], spec["fp"])
+        ck.violation(what + " (%d cases of this class)" % len(lst),
+                     {"kind": "crash" if key[0] == "crash" else "acceptance", "abi_locals_case": spec, "result": {k_: v_ for k_, v_ in x.items() if k_ != "value"},
+                      "python": "harness/c20.py build_abi_locals_case(pt, abi_locals_case)"})
+    return stats
+
+
+# ---------------------------------------------------------------------------------------------
 # compile-history sessions: the outcome class of a compilation must not depend on what was compiled before
 # ---------------------------------------------------------------------------------------------
 SESSION_PRELUDES = [("sub_illtyped_body", 8), ("sub_illtyped_body", 6), ("sub_illtyped_body_byref", 8), ("abi_sub_illtyped_body", 8),
@@ -1576,6 +1701,13 @@ def replay(path):
             bad = now is None or fnow is None or step_class(now) != step_class(fnow)
         else:
             bad = now is None or now["outcome"] in ("crash", "timeout")
+        print("still failing" if bad else "no longer failing")
+        return 1 if bad else 0
+    if "abi_locals_case" in data:
+        xa, xs = run_abi_locals_case(pt, data["abi_locals_case"], True), run_abi_locals_case(pt, data["abi_locals_case"], False)
+        cl = lambda x: "ok" if x["outcome"] == "ok" else x.get("exc", x["outcome"])
+        print("application:", cl(xa), "| signature:", cl(xs), xs.get("msg", "")[:200])
+        bad = "crash" in (xa["outcome"], xs["outcome"]) or cl(xa) != cl(xs)
         print("still failing" if bad else "no longer failing")
         return 1 if bad else 0
     if "itxn_case" in data:
@@ -1724,6 +1856,11 @@ def main(argv):
     t0 = time.time()
     ck.coverage["inner_txn_array_fields"] = stream_itxn(run, thorough)
     ck.coverage["itxn_s"] = round(time.time() - t0, 1)
+
+    t0 = time.time()
+    ck.coverage["signature_vs_application_mode"] = stream_modes(run, thorough)
+    ck.coverage["op_table_vs_langspec"] = op_table_correspondence(run)
+    ck.coverage["modes_s"] = round(time.time() - t0, 1)
 
     # ---- (2f) complexity probes (deterministic call counts, not timings)
     t0 = time.time()
